@@ -131,6 +131,10 @@ func (ex *Explorer) Run() {
 	}
 	if ex.StepCap == 0 {
 		ex.StepCap = 2000000
+		// scale harnesses (thousands of concrete objects) ask for more: bound STEPCAP, in millions
+		if m := ex.Bounds["STEPCAP"]; m > 0 {
+			ex.StepCap = m * 1000000
+		}
 	}
 	if ex.PathCap == 0 {
 		ex.PathCap = 200000
